@@ -22,6 +22,7 @@ from . import store_gen as G
 NAME = 'builder-sim'
 _PM = None
 _PMS = []
+_PM_DATA = []     # the plain data each long-lived model was built from (variant references are built from it)
 _REPO_TESTS_WEATHER = None
 
 AIRPORTS = {
@@ -42,7 +43,7 @@ PATCH_ONLY = {'AEI': (36.128612, -5.441389, 99)}
 
 
 def warm():
-    global _PM, _REPO_TESTS_WEATHER, _PMS
+    global _PM, _REPO_TESTS_WEATHER, _PMS, _PM_DATA
     import AEIC.trajectories.builders  # noqa: F401
     import AEIC.config.core as core
     from AEIC.performance.models import PerformanceModel
@@ -61,6 +62,10 @@ def warm():
     try:
         _PM = PerformanceModel.load(os.path.join(pkg, 'performance', 'sample_performance_model.toml'))
         _PMS = [_PM]
+        import tomllib as _toml
+
+        with open(os.path.join(pkg, 'performance', 'sample_performance_model.toml'), 'rb') as fh:
+            _PM_DATA = [_toml.load(fh)]
         # a variant of the first table with the same aircraft name and ceiling but 10 % more fuel flow
         try:
             import tomllib
@@ -71,12 +76,15 @@ def warm():
             col = fp['cols'].index('fuel_flow')
             fp['data'] = [[v * 1.1 if i == col else v for i, v in enumerate(row)] for row in fp['data']]
             _PMS.append(PerformanceModel.from_data(data))
+            _PM_DATA.append(data)
         except Exception:  # noqa: BLE001
             pass
         second = os.path.join(pkg, 'performance', 'random_test_ptf.toml')
         if os.path.exists(second):
             try:
                 _PMS.append(PerformanceModel.load(second))
+                with open(second, 'rb') as fh:
+                    _PM_DATA.append(_toml.load(fh))
             except Exception:  # noqa: BLE001
                 pass
     finally:
@@ -215,10 +223,29 @@ class BuilderSim:
                        arrival=iso_to_timestamp(m['dep']), load_factor=m['lf'], aircraft_type='738',
                        flight_id=m.get('fid'))
 
-    def fly_once(self, builder, m, plan):
+    def derive_models(self, m):
+        """(model for the used builder, model for the brand-new builder) of a variant mission.
+
+        The first is derived with model_copy(update=...) from the long-lived model every earlier flight
+        of this run used; the second is validated from the plain data with the same field value and has
+        never been seen by any builder."""
+        import copy
+
+        from AEIC.performance.models import PerformanceModel
+
+        idx = m.get('pm', 0) % len(_PMS)
+        v = m['variant']
+        used = _PMS[idx].model_copy(update={v['field']: v['value']})
+        data = copy.deepcopy(_PM_DATA[idx])
+        data[v['field']] = v['value']
+        ref = PerformanceModel.from_data(data)
+        return PMWrapper(used), PMWrapper(ref)
+
+    def fly_once(self, builder, m, plan, pm=None):
         CURRENT_PLAN[0] = FaultPlan(plan)
         mission = self.make_mission(m)
-        pm = self.pms[m.get('pm', 0) % len(self.pms)]
+        if pm is None:
+            pm = self.pms[m.get('pm', 0) % len(self.pms)]
         try:
             if 'mass' in m:
                 traj = builder.fly(pm, mission, starting_mass=m['mass'])
@@ -296,16 +323,24 @@ class BuilderSim:
             os.makedirs(blockdir, exist_ok=True)
             self.bump('patch_table_unreadable')
             self.faults['patch_table_unreadable'] = self.faults.get('patch_table_unreadable', 0) + 1
+        pm_used = pm_ref = None
+        if m.get('variant'):
+            # a model variant derived NOW (after whatever this run already flew) for the used builder,
+            # an independently validated one for the brand-new builder
+            pm_used, pm_ref = self.derive_models(m)
+            self.bump('model_variant_' + m['variant']['field'])
+            if any(o.get('res') for o in self.ops_done):
+                self.bump('model_variant_after_flights')
         try:
             if op.get('fresh_first'):
                 fresh = self.make_builder(opts)
-                out2, p2 = self.fly_once(fresh, m, plan)
+                out2, p2 = self.fly_once(fresh, m, plan, pm_ref)
                 del fresh
-                out, p = self.fly_once(builder, m, plan)
+                out, p = self.fly_once(builder, m, plan, pm_used)
             else:
-                out, p = self.fly_once(builder, m, plan)
+                out, p = self.fly_once(builder, m, plan, pm_used)
                 fresh = self.make_builder(opts)
-                out2, p2 = self.fly_once(fresh, m, plan)
+                out2, p2 = self.fly_once(fresh, m, plan, pm_ref)
         finally:
             if op.get('block_patch'):
                 os.rmdir(blockdir)
@@ -487,6 +522,19 @@ def gen_op(rng, cfg, bid, opts):
         m['o'], m['d'] = ('MAD', 'AEI') if rng.random() < 0.5 else ('AEI', 'MAD')
         m.pop('mass', None)
         block = rng.random() < 0.4
+    if kind in ('valid', 'injected') and not use_w and rng.random() < 0.15:
+        # the same aircraft with another ceiling or payload: the used builder gets a copy derived from
+        # the model it has been flying, the brand-new builder one validated from the plain data
+        field = rng.choice(['maximum_altitude_ft', 'maximum_altitude_ft', 'maximum_payload_kg'])
+        if field == 'maximum_altitude_ft':
+            value = rng.choice([12000, 15000, 20000, 25000, 30000, 35000, 39000])
+            if rng.random() < 0.4:
+                m['o'], m['d'] = rng.choice([('DEN', 'ABQ'), ('ABQ', 'DEN'), ('DEN', 'LAX'), ('ORD', 'DEN')])
+        else:
+            value = rng.choice([5000, 12000, 18000, 22422, 26000])
+        m['variant'] = {'field': field, 'value': value}
+        if kind == 'valid':
+            kind = 'model_variant'
     op = {'op': 'fly', 'builder': bid, 'opts': opts, 'mission': m, 'kind': kind}
     if fault:
         op['fault'] = fault
@@ -583,7 +631,8 @@ def simplifiers(op):
 
 def required_probes(prop, tier):
     return ['flight_ok', 'flight_failed', 'ok_after_failure', 'failed_injected', 'failed_unknown_origin',
-            'failed_mass_out_of_envelope', 'iter_converged', 'patch_table_unreadable', 'patch_only_airport_ok']
+            'failed_mass_out_of_envelope', 'iter_converged', 'patch_table_unreadable', 'patch_only_airport_ok',
+            'model_variant_after_flights']
 
 
 def evidence_info(prop):
@@ -602,7 +651,9 @@ def evidence_info(prop):
                           'airports.csv written by the harness (via data_path_overrides)',
                           'a directory in the place of the supplemental airport table on the search path '
                           '(fault kind patch_table_unreadable)',
-                          'order of reference flight and used-builder flight (short-lived Mission objects)'],
+                          'order of reference flight and used-builder flight (short-lived Mission objects)',
+                          'model variants (other ceiling / payload): model_copy of the long-lived, already flown '
+                          'model for the used builder, a model validated from the plain data for the brand-new one'],
         },
         'fault_kinds': ['sentinel_evaluate', 'sentinel_airport', 'sentinel_weather_init', 'sentinel_ground_speed',
                         'patch_table_unreadable'],
